@@ -33,6 +33,7 @@ type Prog struct {
 	declOf      map[*types.Func]*ast.FuncDecl
 	fileOf      map[*ast.File]*packages.Package
 	nFuncs      int
+	nInlined    int
 	cg          *CG
 	kindsCache  []*Kind
 	lockAn      *lockAnalysis
@@ -142,6 +143,8 @@ func Load(thorough bool) (*Prog, error) {
 		}
 	}
 	gProg = p
+	// after SSA is built: calls to functions new to the rules become inline frames in the syntax (see inline.go)
+	p.nInlined = virtualInline(p)
 	return p, nil
 }
 
